@@ -404,6 +404,20 @@ pub fn load_grammar(ctx: &mut Ctx) -> Grammar {
     Grammar::parse(peg::EMBEDDED_GRAMMAR).expect("embedded grammar parses")
 }
 
+/// C11 restricts names to letters, digits, '_' and inner '-': drop every other character (the
+/// generators' wide-Unicode names may contain emoji, which are SYMBOLs for the grammar)
+fn restrict_names(t: &mut TD) {
+    use crate::unicode_tables as ut;
+    if t.k.shape() == Shape::AtomNamed {
+        let kept: String = t.name.chars().filter(|c| ut::in_table(ut::LETTER, *c) || ut::in_table(ut::NUMBER, *c) || *c == '_' || *c == '-').collect();
+        let kept = kept.trim_matches('-').trim_start_matches('_').to_string();
+        t.name = if kept.is_empty() { "a".to_string() } else { kept };
+    }
+    for k in t.kids.iter_mut() {
+        restrict_names(k);
+    }
+}
+
 fn check_enum(ctx: &mut Ctx, g: &Grammar, nd: &ND, family: &str) {
     ctx.report.eval();
     ctx.report.bump(&format!("family.{}", family));
@@ -460,7 +474,8 @@ pub fn run(ctx: &mut Ctx) {
         }
         if i % 2 == 0 {
             let d__ = 1 + rng.below(5);
-            let nd = gen.narsese(&mut rng, d__);
+            let mut nd = gen.narsese(&mut rng, d__);
+            restrict_names(nd.term_mut());
             check_enum(ctx, &g, &nd, "random-enum");
         } else {
             let d__ = 1 + rng.below(4);
